@@ -92,9 +92,80 @@ struct Spec {
     llgr_comm: bool,
     no_llgr_comm: bool,
     mm: Option<u32>,
+    /// layout of the EXTENDED_COMMUNITIES attribute (index into EC_LAYOUTS): which other
+    /// communities sit before / between / after MAC Mobility
+    ec: u8,
+    /// MAC Mobility sticky/static flag (RFC 7432 7.7); not part of the stated order
+    sticky: bool,
+    /// 0 = one MAC Mobility community, 1 = the same community twice (same sequence number),
+    /// 2 = a second MAC Mobility community with a different sequence number (order undefined: not judged)
+    mm_dup: u8,
 }
 
+/// Extended-community tokens.  M = MAC Mobility (type 0x06 sub-type 0x00), M2 = the second one.
+#[derive(Clone, Copy, PartialEq)]
+enum Ec {
+    Rt0,   // 0x00/0x02 two-octet-AS route target
+    Rt2,   // 0x02/0x02 four-octet-AS route target
+    Encap, // 0x03/0x0c opaque: encapsulation
+    Esi,   // 0x06/0x01 ESI label
+    EsImp, // 0x06/0x02 ES-import route target
+    Rmac,  // 0x06/0x03 router's MAC
+    L2,    // 0x06/0x04 layer-2 attributes
+    M,
+    M2,
+}
+
+const EC_LAYOUTS: &[(&str, &[Ec])] = &[
+    ("rt,MM", &[Ec::Rt0, Ec::M, Ec::M2]),
+    ("MM", &[Ec::M, Ec::M2]),
+    ("rmac,MM", &[Ec::Rmac, Ec::M, Ec::M2]),
+    ("rt,esi,MM", &[Ec::Rt0, Ec::Esi, Ec::M, Ec::M2]),
+    ("esimp,rt4,l2,MM", &[Ec::EsImp, Ec::Rt2, Ec::L2, Ec::M, Ec::M2]),
+    ("MM,rmac", &[Ec::M, Ec::Rmac, Ec::M2]),
+    ("rt,rmac,MM,encap", &[Ec::Rt0, Ec::Rmac, Ec::M, Ec::Encap, Ec::M2]),
+    ("encap,l2,rmac,esi,MM", &[Ec::Encap, Ec::L2, Ec::Rmac, Ec::Esi, Ec::M, Ec::M2]),
+    ("rt,MM,esi,rt4", &[Ec::Rt0, Ec::M, Ec::Esi, Ec::Rt2, Ec::M2]),
+    ("esi,MM,rmac,MM2", &[Ec::Esi, Ec::M, Ec::Rmac, Ec::M2]),
+    ("encap,rt4,MM", &[Ec::Encap, Ec::Rt2, Ec::M, Ec::M2]),
+];
+
 impl Spec {
+    /// true when a type-0x06 community other than MAC Mobility precedes MAC Mobility
+    fn mm_not_first_type6(&self) -> bool {
+        self.mm.is_some()
+            && EC_LAYOUTS[self.ec as usize].1.iter().take_while(|t| **t != Ec::M).any(|t| matches!(t, Ec::Esi | Ec::EsImp | Ec::Rmac | Ec::L2))
+    }
+    fn ext_communities(&self) -> Vec<u8> {
+        let mut b = Vec::new();
+        let mm = |b: &mut Vec<u8>, seq: u32, sticky: bool| {
+            b.extend_from_slice(&[0x06, 0x00, sticky as u8, 0x00]);
+            b.extend_from_slice(&seq.to_be_bytes());
+        };
+        for t in EC_LAYOUTS[self.ec as usize].1 {
+            match t {
+                Ec::Rt0 => b.extend_from_slice(&[0x00, 0x02, 0xfd, 0xe8, 0, 0, 0, 1]),
+                Ec::Rt2 => b.extend_from_slice(&[0x02, 0x02, 0x00, 0x01, 0x00, 0x00, 0x00, 0x64]),
+                Ec::Encap => b.extend_from_slice(&[0x03, 0x0c, 0, 0, 0, 0, 0, 8]),
+                Ec::Esi => b.extend_from_slice(&[0x06, 0x01, 0x00, 0x00, 0x00, 0x00, 0x00, 0x10]),
+                Ec::EsImp => b.extend_from_slice(&[0x06, 0x02, 0x02, 0x00, 0x00, 0x00, 0x00, 0x02]),
+                Ec::Rmac => b.extend_from_slice(&[0x06, 0x03, 0x02, 0x00, 0x00, 0x00, 0x00, 0x01]),
+                Ec::L2 => b.extend_from_slice(&[0x06, 0x04, 0x00, 0x03, 0x05, 0xdc, 0x00, 0x00]),
+                Ec::M => {
+                    if let Some(seq) = self.mm {
+                        mm(&mut b, seq, self.sticky);
+                    }
+                }
+                Ec::M2 => {
+                    if let (Some(seq), d @ 1..=2) = (self.mm, self.mm_dup) {
+                        mm(&mut b, if d == 1 { seq } else { seq + 3 }, self.sticky);
+                    }
+                }
+            }
+        }
+        b
+    }
+
     fn attrs(&self, tag: u32) -> Arc<Vec<Attribute>> {
         let mut v = Vec::new();
         v.push(Attribute::new_with_value(Attribute::ORIGIN, self.origin as u32).unwrap());
@@ -134,11 +205,10 @@ impl Spec {
             let b: Vec<u8> = (0..self.cluster).flat_map(|i| [0u8, 0, 0, 10 + i]).collect();
             v.push(Attribute::new_with_bin(Attribute::CLUSTER_LIST, b).unwrap());
         }
-        if let Some(seq) = self.mm {
-            // a route-target first, then MAC mobility (type 0x06 subtype 0x00)
-            let mut ec = vec![0x00u8, 0x02, 0xfd, 0xe8, 0, 0, 0, 1];
-            ec.extend_from_slice(&[0x06, 0x00, 0x00, 0x00]);
-            ec.extend_from_slice(&seq.to_be_bytes());
+        // extended communities in the layout of this path (route targets, EVPN communities of
+        // other sub-types, MAC Mobility wherever the layout puts it)
+        let ec = self.ext_communities();
+        if !ec.is_empty() && (self.mm.is_some() || self.ec != 0) {
             v.push(Attribute::new_with_bin(Attribute::EXTENDED_COMMUNITY, ec).unwrap());
         }
         Arc::new(v)
@@ -177,11 +247,13 @@ impl MPath {
     }
     fn desc(&self) -> String {
         format!(
-            "tag={} peer={}({:?},rid={},gr-stale={},llgr-stale={}) pid={} lp={:?} aspath={}({} hops) origin={} cluster={} originator={:?} llgr-comm={} no-llgr-comm={} mm={:?} filtered={} nh={:?} nh-invalid={}",
+            "tag={} peer={}({:?},rid={},gr-stale={},llgr-stale={}) pid={} lp={:?} aspath={}({} hops) origin={} cluster={} originator={:?} llgr-comm={} no-llgr-comm={} mm={:?}{}{} ext-communities=[{}] filtered={} nh={:?} nh-invalid={}",
             self.tag, self.peer, self.sess.role, self.sess.rid, self.sess.gr.get() as u8, self.sess.llgr.get() as u8,
             self.path_id, self.spec.lp, ASPATHS[self.spec.asp].0, ref_hops(self.spec.asp), self.spec.origin,
             self.spec.cluster, self.spec.originator, self.spec.llgr_comm as u8, self.spec.no_llgr_comm as u8,
-            self.spec.mm, self.filtered as u8, self.nh, self.nh_invalid as u8
+            self.spec.mm, if self.spec.sticky { "(sticky)" } else { "" },
+            match self.spec.mm_dup { 1 => "(twice)", 2 => "(+second MM, other seq)", _ => "" },
+            EC_LAYOUTS[self.spec.ec as usize].0, self.filtered as u8, self.nh, self.nh_invalid as u8
         )
     }
 }
@@ -699,6 +771,11 @@ fn judge_list(ctx: &mut Ctx, w: &World, fam: usize, what: &str, obs: &[u32], lim
             order_violation(ctx, w, fam, what, obs, ls[i + 1], ls[i], if i == 0 { "maximal" } else { "ranked" });
             break;
         }
+        if fam == EVPN && first_diff(&a, &b) == Some(0) && ls[i].spec.mm_not_first_type6() {
+            // the MAC-mobility step decided in favour of a path whose MAC Mobility community is
+            // preceded by another EVPN-type (0x06) community
+            ctx.rep.count("decided:mac-mobility:winner-mm-not-first-among-type6");
+        }
         match first_diff(&a, &b) {
             Some(k) => ctx.rep.count(&format!("decided:{}", STEPS[k])),
             None => ctx.rep.count("decided:tie"),
@@ -866,6 +943,22 @@ fn check_state(ctx: &mut Ctx, w: &mut World, fam: usize, changes: &[(usize, Nlri
         return None;
     }
     if fam == EVPN {
+        let fp = w.fam_paths(fam);
+        if fp.iter().any(|p| p.spec.mm_dup == 2) {
+            // two MAC Mobility communities with different sequence numbers in one route: neither
+            // RFC 7432 nor the statement says which one counts, so no order is demanded here
+            ctx.rep.count("unjudged:evpn-two-mac-mobility-different-seq");
+            return Some(None);
+        }
+        if fp.iter().any(|p| p.spec.mm_not_first_type6()) {
+            ctx.rep.count("state:evpn-mm-not-first-among-type6");
+        }
+        if fp.iter().any(|p| p.spec.mm.is_some() && p.spec.sticky) {
+            ctx.rep.count("state:evpn-mm-sticky");
+        }
+        if fp.iter().any(|p| p.spec.mm.is_some() && p.spec.mm_dup == 1) {
+            ctx.rep.count("state:evpn-mm-community-twice");
+        }
         let mms: Vec<u32> = g.iter().filter_map(|x| x.0).filter_map(|t| w.paths.iter().find(|p| p.fam == fam && p.tag == t)).map(|p| p.spec.mm.unwrap_or(0)).collect();
         if mms.windows(2).any(|x| x[0] < x[1]) {
             w.mm_broken = true;
@@ -1047,7 +1140,7 @@ fn step(ctx: &mut Ctx, w: &mut World, op: Op, check: bool) -> Option<()> {
 
 const ROLES: [PeerRole; 5] = [PeerRole::Ebgp, PeerRole::RsClient, PeerRole::Ibgp, PeerRole::IbgpRrClient, PeerRole::ConfedEbgp];
 const LPS: [Option<u32>; 4] = [None, Some(100), Some(200), Some(50)];
-const MMS: [Option<u32>; 3] = [None, Some(1), Some(2)];
+const MMS: [Option<u32>; 4] = [None, Some(1), Some(2), Some(256)];
 const ORIGINATORS: [Option<u32>; 4] = [None, Some(1), Some(2), Some(9)];
 
 /// All decision-relevant facts of one candidate path, one field group per step.
@@ -1066,6 +1159,9 @@ struct Flat {
     rid: u32,
     filtered: bool,
     nh: Option<u8>,
+    ec: u8,
+    sticky: bool,
+    mm_dup: u8,
 }
 
 fn n_variants(k: usize) -> usize {
@@ -1109,7 +1205,7 @@ fn random_asp(rng: &mut Rng, long_ok: bool) -> usize {
 fn random_flat(rng: &mut Rng, long_ok: bool) -> Flat {
     let mut f = Flat {
         mm: None, llgr_src: false, llgr_comm: false, lp: None, asp: 2, origin: 0, role: PeerRole::Ebgp, gr: false,
-        cluster: 0, originator: None, rid: 1, filtered: false, nh: Some(0),
+        cluster: 0, originator: None, rid: 1, filtered: false, nh: Some(0), ec: 0, sticky: false, mm_dup: 0,
     };
     for k in 0..9 {
         if k == 3 {
@@ -1122,6 +1218,10 @@ fn random_flat(rng: &mut Rng, long_ok: bool) -> Flat {
         }
     }
     f.nh = Some(rng.below(3) as u8);
+    // representation of the extended communities: never part of the order
+    f.ec = rng.usize(EC_LAYOUTS.len()) as u8;
+    f.sticky = rng.chance(1, 6);
+    f.mm_dup = if rng.chance(1, 8) { 1 } else { 0 };
     f
 }
 
@@ -1133,7 +1233,7 @@ struct Case {
 }
 
 fn spec_of(f: &Flat) -> Spec {
-    Spec { lp: f.lp, asp: f.asp, origin: f.origin, cluster: f.cluster, originator: f.originator, llgr_comm: f.llgr_comm, no_llgr_comm: false, mm: f.mm }
+    Spec { lp: f.lp, asp: f.asp, origin: f.origin, cluster: f.cluster, originator: f.originator, llgr_comm: f.llgr_comm, no_llgr_comm: false, mm: f.mm, ec: f.ec, sticky: f.sticky, mm_dup: f.mm_dup }
 }
 
 /// one peer per path
@@ -1437,6 +1537,9 @@ fn random_spec(rng: &mut Rng, long_ok: bool) -> Spec {
     let f = random_flat(rng, long_ok);
     let mut s = spec_of(&f);
     s.no_llgr_comm = rng.chance(1, 10);
+    if s.mm.is_some() && rng.chance(1, 30) {
+        s.mm_dup = 2;
+    }
     s
 }
 
@@ -1628,16 +1731,22 @@ fn run_tie_histories(ctx: &mut Ctx, rng: &mut Rng, count: u64) {
         let fam = if rng.chance(1, 4) { EVPN } else { V4 };
         let mut base = random_spec(rng, false);
         base.no_llgr_comm = false;
+        if base.mm_dup == 2 {
+            base.mm_dup = 1;
+        }
         base.llgr_comm = rng.chance(1, 6);
         base.originator = None;
         base.cluster = 1 + rng.below(2) as u8;
         let tie_spec = |rng: &mut Rng| {
             let mut s = base;
+            s.ec = rng.usize(EC_LAYOUTS.len()) as u8;
+            s.sticky = rng.chance(1, 6);
             match rng.below(12) {
                 0..=1 => s.cluster = base.cluster + 1,
                 2 => s.cluster = base.cluster - 1,
                 3 => s.originator = Some(rng.range(1, 9) as u32),
                 4 => s.origin = (base.origin + 1) % 3, // an occasional non-tie
+                5 => s.mm = Some(base.mm.unwrap_or(0) + 1), // (EVPN type-2: decided by MAC mobility)
                 _ => {}
             }
             s
